@@ -145,3 +145,13 @@ func implementsPtr(named *types.Named, iface types.Type) bool {
 	}
 	return types.Implements(types.NewPointer(named), it) || types.Implements(named, it)
 }
+
+// edgeMust: literals that hold when control flows along the edge pred -> succ.
+func (c *Ctx) edgeMust(fn *ssa.Function, pred, succ *ssa.BasicBlock) []string {
+	out := c.mustLits(fn, pred)
+	if lit := c.PC(fn).edgeLit(pred, succ); lit != "" {
+		out = append(out, c.T(fn).Canon(lit))
+	}
+	sort.Strings(out)
+	return out
+}
